@@ -34,7 +34,7 @@ EntriesBoot == {<<A, EQ_, x>>, <<A>>, <<>>}
 \* one with only ignored keys; one with the collected keys in another order
 AuxvsQ == { <<>>,
             << <<33, 900>>, <<51, 3>>, <<16, 7>>, <<6, 4096>>, <<17, 100>>, <<3, 64>>, <<4, 56>>, <<5, 11>>,
-               <<7, 500>>, <<8, 0>>, <<9, 77>>, <<11, 1000>>, <<12, 1000>>, <<13, 100>>, <<14, 100>>,
+               <<7, 500>>, <<8, 0>>, <<9, 77>>, <<11, 1000>>, <<12, 1001>>, <<13, 100>>, <<14, 101>>,
                <<23, 0>>, <<25, 40>>, <<26, 2>>, <<31, 41>>, <<15, 42>>, <<27, 28>>, <<28, 32>> >>,
             << <<6, 4096>>, <<51, 3>>, <<52, 9>>, <<64, 1>> >>,
             << <<31, 5>>, <<25, 6>>, <<13, 7>>, <<11, 8>>, <<7, 9>>, <<5, 10>>, <<4, 11>>, <<3, 12>>, <<23, 1>>, <<33, 13>> >> }
